@@ -142,6 +142,8 @@ def _shard(arg):
     strat = st.tuples(st.one_of(st.tuples(st.just("soup"), gen.soup_strategy()),
                                 st.tuples(st.just("soup"), gen.soup_strategy()),
                                 st.tuples(st.just("soup-dates"), gen.soup_strategy(gen.DATE_POOLS, 5)),
+                                st.tuples(st.just("family"), gen.family_strategy()),
+                                st.tuples(st.just("family"), gen.family_strategy()),
                                 st.tuples(st.just("unicode"), st.text(max_size=40)),
                                 st.tuples(st.just("ascii-ish"), gen.text_strategy()),
                                 st.tuples(st.just("mutated-corpus"), gen.mutate_strategy())),
@@ -156,7 +158,7 @@ def _shard(arg):
 
 
 # --- fixed boundary list: always run, every tier -----------------------------------
-BOUNDARY = ["", " ", "#", "#tag", "# ", "##", ",;()", "\x00", "very early very early morning",
+BOUNDARY = ["5.10.2020 8 o'clock - 5.10.2020 8 o'clock", "heute 8 uhr bis heute 8 uhr", "evening 8-12", "", " ", "#", "#tag", "# ", "##", ",;()", "\x00", "very early very early morning",
             "sehr früh sehr früh morgens", "late late late evening", "early early early early morning",
             "31.04.2020", "31.04.", "30.2.", "29.02.2019", "12.02.2020 - 31.", "31.6.2020 8:00",
             "31.04.2020 for 2 days", "30.02.2021 - 31.02.2021", "2 days 30.2.2020 - 31.2.2020",
@@ -263,7 +265,7 @@ def absent_cases(seed, n):
 
 
 def run(ctx):
-    n = 400000 if ctx.thorough else 8000
+    n = 400000 if ctx.thorough else 6400
     shards = 32 if ctx.thorough else 16
     acc = core.pmap_acc(ctx.pid, _shard, [(ctx.pid, ctx.seed, n // shards, i) for i in range(shards)])
     acc.merge(core.pmap_acc(ctx.pid, _boundary, [(ctx.pid, p) for p in core.chunks(BOUNDARY, 16)]))
@@ -276,7 +278,7 @@ def run(ctx):
         extra["atheris"] = finfo
     return core.finish(ctx, acc, RULE, assumptions=[
         "timeout=0 in every call (a wall-clock timeout would make verdicts load dependent); a case running longer than {}s is counted inconclusive".format(CASE_TIMEOUT),
-        "work bound: texts with >600 candidate match sequences are skipped (counted in notes); max_stack_depth=0 only for texts with <=40 candidate sequences, otherwise run with depth 10 and classified so",
+        "work bound: texts with >600 candidate match sequences are skipped (counted in notes); max_stack_depth=0 only for texts with <=40 candidate sequences of <=6 matches, otherwise run with depth 10 and classified so",
         "reference times 1970-2100"], extra=extra, shrinker=_shrink)
 
 
